@@ -645,12 +645,13 @@ func c14History(c *Ctx) {
 	// ---- ListMultipartUploads walks
 	for _, pd := range combos {
 		hasP := pd[2] == "1"
+		emptyDelim := pd[1] == "" && c.Rng.Intn(2) == 0 // delimiter= present but empty: no delimiter
 		for lim := 1; lim <= len(ups)+1 && !dead; lim++ {
 			km, im := "", ""
 			var all, allP []string
 			var specFull string
 			for page := 0; ; page++ {
-				line, uo := r.MpUploads(bucket, hasP, pd[0], pd[1] != "", pd[1], km, im, fmt.Sprint(lim), int64(lim))
+				line, uo := r.MpUploads(bucket, hasP, pd[0], pd[1] != "" || emptyDelim, pd[1], km, im, fmt.Sprint(lim), int64(lim))
 				_, spec := r.judgeProj(line, uo.Obs, "c14:uploads-page", ident, nil)
 				if !uo.OK {
 					dead = true
